@@ -19,10 +19,14 @@ func (n *Node) InstallFaultTriggers() {
 			panic(fmt.Sprintf("storekit: %s: %v", q, err))
 		}
 	}
-	must(fmt.Sprintf(`CREATE TABLE IF NOT EXISTS %s (k INTEGER NOT NULL, armed INTEGER NOT NULL)`, faultTable))
+	must(fmt.Sprintf(`CREATE TABLE IF NOT EXISTS %s (k INTEGER NOT NULL, armed INTEGER NOT NULL, commitfault INTEGER NOT NULL DEFAULT 0)`, faultTable))
 	must(fmt.Sprintf(`DELETE FROM %s`, faultTable))
 	must(fmt.Sprintf(`INSERT INTO %s (k, armed) VALUES (0, -1)`, faultTable))
-	rows, err := n.DB.Query(`SELECT name FROM sqlite_master WHERE type='table' AND name NOT LIKE 'sqlite_%' AND name NOT LIKE 'gorp_%' AND name <> '` + faultTable + `'`)
+	// a failing COMMIT: while commitfault = 1 every row write also inserts a row that violates a DEFERRED foreign key,
+	// which SQLite checks when the transaction commits (the stores open their files with _foreign_keys=on)
+	must(`CREATE TABLE IF NOT EXISTS zz_verif_fkp (id INTEGER PRIMARY KEY)`)
+	must(`CREATE TABLE IF NOT EXISTS zz_verif_fkc (pid INTEGER REFERENCES zz_verif_fkp(id) DEFERRABLE INITIALLY DEFERRED)`)
+	rows, err := n.DB.Query(`SELECT name FROM sqlite_master WHERE type='table' AND name NOT LIKE 'sqlite_%' AND name NOT LIKE 'gorp_%' AND name NOT LIKE 'zz_verif_%'`)
 	if err != nil {
 		panic(err)
 	}
@@ -38,14 +42,29 @@ func (n *Node) InstallFaultTriggers() {
 			must(fmt.Sprintf(`CREATE TRIGGER IF NOT EXISTS zz_vf_%s_%s BEFORE %s ON %s BEGIN
 				UPDATE %s SET k = k + 1;
 				SELECT RAISE(FAIL, 'verif: injected storage fault') WHERE (SELECT k FROM %s) = (SELECT armed FROM %s);
-			END;`, t, op, op, t, faultTable, faultTable, faultTable))
+				INSERT INTO zz_verif_fkc (pid) SELECT 1 WHERE (SELECT commitfault FROM %s) = 1;
+			END;`, t, op, op, t, faultTable, faultTable, faultTable, faultTable))
 		}
 	}
 }
 
 // Arm makes the k-th row write from now on fail (k >= 1); Arm(-1) disarms. Resets the counter.
 func (n *Node) Arm(k int) {
-	if _, err := n.DB.Exec(fmt.Sprintf(`UPDATE %s SET k = 0, armed = %d`, faultTable, k)); err != nil {
+	if _, err := n.DB.Exec(fmt.Sprintf(`UPDATE %s SET k = 0, armed = %d, commitfault = 0`, faultTable, k)); err != nil {
+		panic(err)
+	}
+}
+
+// ArmCommit(true) makes the COMMIT of every transaction that writes at least one row fail (deferred foreign-key
+// violation: every statement of the transaction succeeds, the failure is reported by COMMIT itself; database/sql then
+// considers the transaction finished, so a later Rollback reports sql.ErrTxDone). ArmCommit(false) disarms.
+// Row-write faults are disarmed and the counter is reset either way.
+func (n *Node) ArmCommit(on bool) {
+	v := 0
+	if on {
+		v = 1
+	}
+	if _, err := n.DB.Exec(fmt.Sprintf(`UPDATE %s SET k = 0, armed = -1, commitfault = %d`, faultTable, v)); err != nil {
 		panic(err)
 	}
 }
